@@ -308,30 +308,101 @@ def r4_pickle_pairs(ctx):
 
 
 def r5_gateway(ctx):
+    """C17.R5: the gateway's JSON framing round-trips: what request_response puts on the wire is parsed by parse_request into the same
+    request; what serialize_response puts on the wire is decoded by request_response into the same response; kinds and stems are
+    checked on both sides.  Decided on a symbolic wire: orjson.dumps/loads are modelled as an exact pair."""
+    import copy as _copy
     repo = ctx.repo
     C = "cascade.gateway.client"
-    res = {}
+    A = "cascade.gateway.api"
     for fn in ("request_response", "parse_request", "serialize_response"):
-        fi = repo.func(f"{C}.{fn}")
-        ctx.analysed(fi.qual)
-        tag_w = [n for n in walk_scope(fi.node) if isinstance(n, ast.Subscript) and isinstance(n.ctx, ast.Store) and isinstance(n.slice, ast.Constant)]
-        tag_r = [n for n in walk_scope(fi.node) if isinstance(n, ast.Call) and isinstance(n.func, ast.Attribute) and n.func.attr == "pop"
-                 and n.args and isinstance(n.args[0], ast.Constant)]
-        sfx = [n.args[0].value for n in walk_scope(fi.node) if isinstance(n, ast.Call) and isinstance(n.func, ast.Attribute) and n.func.attr == "endswith"
-               and n.args and isinstance(n.args[0], ast.Constant)]
-        res[fn] = ({n.slice.value for n in tag_w}, {n.args[0].value for n in tag_r}, set(sfx))
-    wreq, rreq, wres = res["request_response"], res["parse_request"], res["serialize_response"]
-    checks = [
-        (wreq[0] == rreq[1] and len(wreq[0]) == 1, f"request class tag: written under {sorted(wreq[0])}, read from {sorted(rreq[1])}"),
-        (wres[0] == wreq[1] and len(wres[0]) == 1, f"response class tag: written under {sorted(wres[0])}, read from {sorted(wreq[1])}"),
-        ("Request" in wreq[2] and "Request" in rreq[2], "both sides check the 'Request' suffix"),
-        ("Response" in wres[2] and "Response" in wreq[2], "both sides check the 'Response' suffix"),
-    ]
-    for ok_, what in checks:
-        if ok_:
-            ctx.ok("C17.R5", f"src/cascade/gateway/client.py", what)
+        ctx.analysed(f"{C}.{fn}")
+    L = "src/cascade/gateway/client.py"
+
+    def fields_of(run, a, k, n, f):
+        recv = run.cur_call.get("recv_value")
+        return dict(recv.fields) if isinstance(recv, Obj) else Sym("dump")
+
+    def dumps(run, a, k, n, f):
+        return ("json-wire", _copy.deepcopy(a[0]) if a and isinstance(a[0], dict) else a[0] if a else None)
+
+    def loads(run, a, k, n, f):
+        w = a[0] if a else None
+        if isinstance(w, tuple) and len(w) == 2 and w[0] == "json-wire" and isinstance(w[1], dict):
+            return _copy.deepcopy(w[1])
+        return Sym("loaded")
+
+    def run_fn(fn, args, recv=None):
+        models = {("method", "model_dump"): fields_of, ("method", "dict"): fields_of, "orjson.dumps": dumps, "orjson.loads": loads}
+        if recv is not None:
+            models[("method", "recv")] = lambda run, a, k, n, f: recv
+            models[("method", "poll")] = lambda run, a, k, n, f: 1
+        ip = Interp(repo, call_models=models, inline=lambda f: f.qual.startswith(C + "."))
+        return ip.explore(repo.func(f"{C}.{fn}"), args=args)
+
+    def wire_of(paths):
+        ws = []
+        for p in paths:
+            for e in p.effects:
+                if e.kind == "call" and e.data.get("name") == "orjson.dumps":
+                    ws.append(e.data.get("result"))
+        return ws
+
+    req = Obj(f"{A}.JobProgressRequest", {"job_ids": ["j1"]}, name="req")
+    resp = Obj(f"{A}.JobProgressResponse", {"progresses": {"j1": "50.00"}, "error": None}, name="resp")
+    other = Obj(f"{A}.ResultRetrievalResponse", {"result": None, "error": "e"}, name="other-resp")
+
+    def same(v, o):
+        return isinstance(v, Obj) and v.cls == o.cls and {k: vkey(x) for k, x in v.fields.items()} == {k: vkey(x) for k, x in o.fields.items()}
+
+    # response -> wire
+    ps = run_fn("serialize_response", {"m": resp})
+    ctx.evals(len(ps))
+    wr = [p.exit[1] for p in ps if p.exit[0] == "return"]
+    if len(ps) != 1 or len(wr) != 1 or not (isinstance(wr[0], tuple) and wr[0][:1] == ("json-wire",)):
+        ctx.undecided("C17.R5", L, f"serialize_response on a model response: {[(p.exit[0], vkey(p.exit[1])[:60]) for p in ps]}")
+        return
+    w_resp = wr[0]
+    ps = run_fn("serialize_response", {"m": other})
+    w_other = [p.exit[1] for p in ps if p.exit[0] == "return"][0] if any(p.exit[0] == "return" for p in ps) else None
+    # request -> wire -> request, and the response back
+    ps = run_fn("request_response", {"m": req, "url": "u"}, recv=w_resp)
+    ctx.evals(len(ps))
+    w_req = wire_of(ps)
+    rets = [p for p in ps if p.exit[0] == "return"]
+    if not ps or len(rets) != len(ps) or not all(same(r_.exit[1], resp) for r_ in rets):
+        ctx.violation("C17.R5", f"{C}.request_response", L, "response decoded as sent",
+                      f"gateway JSON framing disagrees — the response written by serialize_response ({vkey(w_resp)[:120]}) is decoded by request_response as "
+                      f"{[(p.exit[0], vkey(p.exit[1])[:80], vkey(getattr(p.exit[1], 'fields', ''))[:80]) for p in ps]}; expected the same JobProgressResponse")
+    else:
+        ctx.ok("C17.R5", L, "response: serialize_response -> wire -> request_response returns the same message (class tag key and stem agree)")
+    w_req = list({vkey(w_): w_ for w_ in w_req}.values())
+    if len(w_req) != 1:
+        ctx.undecided("C17.R5", L, f"request_response puts {len(w_req)} messages on the wire")
+        return
+    ps = run_fn("parse_request", {"rr": w_req[0]})
+    ctx.evals(len(ps))
+    rets = [p for p in ps if p.exit[0] == "return"]
+    if not ps or len(rets) != len(ps) or not all(same(r_.exit[1], req) for r_ in rets):
+        ctx.violation("C17.R5", f"{C}.parse_request", L, "request decoded as sent",
+                      f"gateway JSON framing disagrees — the request written by request_response ({vkey(w_req[0])[:120]}) is parsed by parse_request as "
+                      f"{[(p.exit[0], vkey(p.exit[1])[:80], vkey(getattr(p.exit[1], 'fields', ''))[:80]) for p in ps]}; expected the same JobProgressRequest")
+    else:
+        ctx.ok("C17.R5", L, "request: request_response -> wire -> parse_request returns the same message")
+    # kinds are checked on both sides
+    neg = [("parse_request refuses a response", "parse_request", {"rr": w_resp}, None),
+           ("serialize_response refuses a request", "serialize_response", {"m": req}, None),
+           ("request_response refuses to send a response", "request_response", {"m": resp, "url": "u"}, w_resp),
+           ("request_response refuses a request as the answer", "request_response", {"m": req, "url": "u"}, w_req[0])]
+    if w_other is not None:
+        neg.append(("request_response refuses an answer of another stem", "request_response", {"m": req, "url": "u"}, w_other))
+    for what, fn, args, rv in neg:
+        ps = run_fn(fn, args, recv=rv)
+        ctx.evals(len(ps))
+        if any(p.exit[0] != "raise" for p in ps):
+            ctx.violation("C17.R5", f"{C}.{fn}", L, what, f"gateway JSON framing disagrees — {what}: it ends {[(p.exit[0], vkey(p.exit[1])[:60]) for p in ps]} instead of an error")
         else:
-            ctx.violation("C17.R5", C, "src/cascade/gateway/client.py", what.split(":")[0], f"gateway JSON framing disagrees — {what}")
+            ctx.ok("C17.R5", L, what)
 
 
 def r6_json_keys(ctx):
@@ -388,7 +459,7 @@ def r6_json_keys(ctx):
                                   f"{unparse(c)[:90]}: with `{extra[0]}=` a value JSON cannot represent is written in another form instead of being rejected — the job read back differs silently")
                 else:
                     ctx.ok("C17.R6", loc(fi, c), "job instance JSON writer: values JSON cannot represent are rejected")
-    ctx.floor("C17.R6.writers", nw, 2)
+    ctx.floor("C17.R6.writers", nw, 1)
 
 
 RULES = [r1_layouts, r2_registry, r3_widths, r4_pickle_pairs, r5_gateway, r6_json_keys]
